@@ -6,7 +6,7 @@ from vlib.core import hx, load_known
 MODULES = ['TLVerif.Props.C06']
 SOURCES = ["TLVerif.Codec.Json", "TLVerif.Codec.JsonPrim", "TLVerif.Codec.JsonText", "TLVerif.Codec.JsonTextLemmas", "TLVerif.Codec.JsonLemmas", "TLVerif.Codec.JsonAlt",
            "TLVerif.Codec.Ops.Json"]
-THEOREMS = ["TLVerif.Props.C06.omitted_is_empty_prim", "TLVerif.Props.C06.omitted_is_empty_struct", "TLVerif.Props.C06.omitted_is_empty_maybe", "TLVerif.Props.C06.omitted_tuple_nonzero_rejected", "TLVerif.Props.C06.number_as_string_int", "TLVerif.Props.C06.number_as_string_float", "TLVerif.Props.C06.union_as_string", "TLVerif.Props.C06.union_value_first", "TLVerif.Props.C06.maybe_forms", "TLVerif.Props.C06.maybe_without_ok", "TLVerif.Props.C06.masked_field_sets_local_bits_step", "TLVerif.Props.C06.masked_field_sets_local_bits", "TLVerif.Props.C06.external_mask_zero_rejected", "TLVerif.Props.C06.external_mask_accepted", "TLVerif.Props.C06.true_false_with_bit_set_rejected", "TLVerif.Props.C06.unknown_key_rejected", "TLVerif.Props.C06.duplicate_key_rejected", "TLVerif.Props.C06.array_len_must_match_nat", "TLVerif.Props.C06.maybe_okfalse_value_rejected", "TLVerif.Props.C06.dict_as_pairs_rejected", "TLVerif.Props.C06.alt_equiv", "TLVerif.Props.C06.struct_member_congruence"]
+THEOREMS = ["TLVerif.Props.C06.omitted_is_empty_prim", "TLVerif.Props.C06.omitted_is_empty_member", "TLVerif.Props.C06.omitted_is_empty_prim_value", "TLVerif.Props.C06.omitted_is_empty_struct", "TLVerif.Props.C06.omitted_is_empty_maybe", "TLVerif.Props.C06.omitted_tuple_nonzero_rejected", "TLVerif.Props.C06.number_as_string_int", "TLVerif.Props.C06.number_as_string_float", "TLVerif.Props.C06.union_as_string", "TLVerif.Props.C06.union_value_first", "TLVerif.Props.C06.maybe_forms", "TLVerif.Props.C06.maybe_without_ok", "TLVerif.Props.C06.masked_field_sets_local_bits_step", "TLVerif.Props.C06.masked_field_sets_local_bits", "TLVerif.Props.C06.external_mask_zero_rejected", "TLVerif.Props.C06.external_mask_accepted", "TLVerif.Props.C06.true_false_with_bit_set_rejected", "TLVerif.Props.C06.unknown_key_rejected", "TLVerif.Props.C06.duplicate_key_rejected", "TLVerif.Props.C06.array_len_must_match_nat", "TLVerif.Props.C06.maybe_okfalse_value_rejected", "TLVerif.Props.C06.dict_as_pairs_rejected", "TLVerif.Props.C06.alt_equiv", "TLVerif.Props.C06.struct_member_congruence"]
 
 
 def run(c):
